@@ -1064,3 +1064,42 @@ def clip_sheet(ck, F, rule="CLIP-SHEET"):
                   "is on: a whole-column reference to another sheet is cut at the wrong row" % (me, b.local_name(base)), f, l,
                   sample={"fn": me, "sheet_from": b.local_name(base) or b.locals[base]})
     ck.note("clip_sites", n)
+
+
+def support_match(ck, F, rule="TYPESTATE-eval"):
+    """A written position matches a recorded dependency only when sheet, row and column all match: every predicate closure
+    of Model::position_in_support (the test that decides whether a spill just written is something an earlier anchor read,
+    i.e. whether phase 1 must reorder and restart) that compares the row or the column of a candidate position also
+    compares the sheet *of that same position*.  Comparing the dependency's sheet with anything else (the dependent cell's
+    own sheet) loses cross-sheet dependencies between spills: the first evaluation differs from the second."""
+    CRI = "ironcalc_base::expressions::types::CellReferenceIndex"
+    b0 = ck.need(F.one, "Model::position_in_support")
+    n = 0
+    for p in sorted(F.body_paths()):
+        if F.heads[p].get("root") != b0.path or p == b0.path:
+            continue
+        b = F.body(p)
+        fields = set()
+        for bi, si, s in b.stmts():
+            rv = s["rv"]
+            if rv["k"] != "bin" or rv["op"] not in ("Eq", "Ne", "Lt", "Le", "Gt", "Ge"):
+                continue
+            for o in (rv["a"], rv["b"]):
+                pl = op_place(o)
+                if pl is None:
+                    continue
+                rp = b.resolve_place(pl, through_named=True)
+                # the candidate position is the closure's own argument; local 1 is the environment (captured variables)
+                if rp["l"] != 1:
+                    for e in place_proj(rp):
+                        if e[0] == "f" and e[3] == CRI:
+                            fields.add(e[2])
+        if not fields & {"row", "column"}:
+            continue
+        n += 1
+        ck.ob(rule, "position_in_support|%s compares sheet, row and column of the candidate" % b.qname.rsplit("::", 1)[-1],
+              {"sheet", "row", "column"} <= fields,
+              "a matching predicate of position_in_support compares %s of the written position but not its sheet: a spill on another sheet "
+              "at the same coordinates matches (or a real cross-sheet dependency does not), so the reordering of phase 1 is wrong"
+              % sorted(fields), b.file, b.line, sample={"closure": b.qname.rsplit("::", 1)[-1], "compared": sorted(fields)})
+    ck.ob(rule, "position_in_support|predicates", n >= 2, "expected two matching predicates (cell and range dependencies) in position_in_support, found %d" % n, b0.file, b0.line)
